@@ -129,8 +129,9 @@ theorem distance_scaled (c : Cfg ℝ) (ws' : Option (List ℝ)) (ini ini' : Init
 
 /-! ### the matrix -/
 
-/-- `DistMatrix` only looks at the alignment through `InitModel` and the pair distances -/
-theorem distMatrix_congr (c c' : Cfg ℝ) (rows rows' : List Seq) (a b cc d : Int)
+/-- `DistMatrix` only looks at the alignment through `InitModel` and the pair distances — for every
+interpretation `α` of `float64` (no arithmetic law is used: also true of the IEEE-like `FVal`) -/
+theorem distMatrix_congr {α : Type} [RealLike α] (c c' : Cfg α) (rows rows' : List Seq) (a b cc d : Int)
     (hv : c'.variant = c.variant) (hn : rows'.length = rows.length)
     (h : match initModel c rows, initModel c' rows' with
          | some ini, some ini' => ∀ i j, distance c' ini' (ini'.codes.getD i []) (ini'.codes.getD j [])
